@@ -178,6 +178,7 @@ Json TableDesc::to_json() const {
 	if (no_type) j["no_type"] = Json(true);
 	if (no_comments) j["no_comments"] = Json(true);
 	if (ext_reversed) j["ext_reversed"] = Json(true);
+	if (double_image) j["double_image"] = Json(true);
 	return j;
 }
 
@@ -197,6 +198,7 @@ bool TableDesc::from_json(const Json &j, TableDesc &d, std::string &err) {
 	d.no_type = j.getb("no_type");
 	d.no_comments = j.getb("no_comments");
 	d.ext_reversed = j.getb("ext_reversed");
+	d.double_image = j.getb("double_image");
 	if (d.naxes.empty() || d.order.size() != d.naxes.size()) { err = "desc: order/naxes sizes"; return false; }
 	uint64_t n = 1;
 	for (size_t i = 0; i < d.naxes.size(); i++) {
@@ -299,6 +301,7 @@ TableSpec realize(const TableDesc &d) {
 	t.no_type = d.no_type;
 	t.no_comments = d.no_comments;
 	t.ext_reversed = d.ext_reversed;
+	t.double_image = d.double_image;
 	for (uint32_t i = 0; i < t.ndim; i++) t.knots.push_back(make_knots(d.knots, d.seed, i, d.order[i], d.naxes[i]));
 	uint64_t n = d.ncoeffs();
 	t.coeff.resize(n);
@@ -390,6 +393,7 @@ std::vector<TableDesc> simplify_desc(const TableDesc &d) {
 	if (d.periods != "none") { TableDesc c = d; c.periods = d.periods == "values" ? "zero" : "none"; out.push_back(c); }
 	if (d.extents == "explicit") { TableDesc c = d; c.extents = "default"; out.push_back(c); }
 	if (d.single_order) { TableDesc c = d; c.single_order = false; out.push_back(c); }
+	if (d.double_image) { TableDesc c = d; c.double_image = false; out.push_back(c); }
 	if (d.no_type) { TableDesc c = d; c.no_type = false; out.push_back(c); }
 	if (d.no_comments) { TableDesc c = d; c.no_comments = false; out.push_back(c); }
 	if (d.ext_reversed) { TableDesc c = d; c.ext_reversed = false; out.push_back(c); }
@@ -399,7 +403,7 @@ std::vector<TableDesc> simplify_desc(const TableDesc &d) {
 // ---------------------------------------------------------------- foreign files
 const std::vector<std::string> &foreign_kinds() {
 	static const std::vector<std::string> k = {"empty_primary", "bintable", "asciitable", "int16_image", "compressed",
-	                                           "float_noext", "double_primary", "garbage", "text", "empty", "short", "wrapping_shape"};
+	                                           "float_noext", "double_primary", "garbage", "text", "empty", "short", "wrapping_shape", "wrapping_inner"};
 	return k;
 }
 
@@ -495,6 +499,55 @@ Bytes foreign_fits(const std::string &kind, uint64_t seed) {
 			for (uint32_t d = 0; d < t.ndim; d++) { t.extents.push_back(t.knots[d][t.order[d]]); t.extents.push_back(t.knots[d][t.knots[d].size() - t.order[d] - 1]); }
 		}
 		out = encode_fits(t);
+	} else if (kind == "wrapping_inner") {
+		// as wrapping_shape, but the *inner* axes multiply to 2^64 + r with a small non-zero r (2^64 + r is chosen
+		// smooth and split into axis lengths), so no partial product is zero and only an overflow check of every
+		// multiplication sees it; one more small axis follows. The element count wraps to r*m: a few KB of data.
+		struct Smooth { uint32_t r; std::vector<uint64_t> f; };
+		static std::vector<Smooth> pool;
+		if (pool.empty()) {
+			for (uint32_t rr = 1; rr < 6000 && pool.size() < 12; rr++) {
+				unsigned __int128 v = ((unsigned __int128)1 << 64) + rr;
+				std::vector<uint64_t> f;
+				for (uint64_t q = 2; q < 30000 && v > 1; q++) while (v % q == 0) { f.push_back(q); v /= q; }
+				if (v == 1 && f.size() >= 3) pool.push_back(Smooth{rr, f});
+			}
+		}
+		TableSpec t;
+		if (!pool.empty()) {
+			const Smooth &sm = pool[r.below(pool.size())];
+			// group the prime factors into at most 7 axes, each below 40000
+			std::vector<uint64_t> ax;
+			std::vector<uint64_t> f = sm.f;
+			for (size_t i = f.size(); i > 1; i--) std::swap(f[i - 1], f[r.below(i)]);
+			for (uint64_t q : f) {
+				bool placed = false;
+				if (!ax.empty() && r.chance(0.6)) { size_t k = r.below(ax.size()); if (ax[k] * q < 40000) { ax[k] *= q; placed = true; } }
+				if (!placed) { if (ax.size() < 7) ax.push_back(q); else { size_t k = 0; for (size_t j = 1; j < ax.size(); j++) if (ax[j] < ax[k]) k = j; ax[k] *= q; } }
+			}
+			uint64_t m = 2 + r.below(3);
+			bool outer_first = r.chance(0.5);
+			// naxes[0] is the slowest axis: the extra axis goes in front (its stride is the wrapped inner product) or behind
+			if (outer_first) ax.insert(ax.begin(), m); else ax.push_back(m);
+			t.ndim = (uint32_t)ax.size();
+			t.naxes = ax;
+			for (uint32_t d = 0; d < t.ndim; d++) {
+				uint32_t o = (uint32_t)r.below(std::min<uint64_t>(ax[d], 3));
+				t.order.push_back(o);
+				std::vector<double> k(ax[d] + o + 1);
+				double x = r.uniform(-2, 2);
+				for (auto &v : k) { v = x; x += r.uniform(0.1, 1.0); }
+				t.knots.push_back(k);
+			}
+			uint64_t wrapped = 1;
+			for (auto a : ax) wrapped *= a;     // modulo 2^64
+			if (wrapped > 200000) wrapped = 200000;
+			t.coeff.assign((size_t)wrapped, 0.f);
+			for (size_t k = 0; k < t.coeff.size(); k++) t.coeff[k] = 1.0f + (float)(k % 5);
+			t.has_extents = true;
+			for (uint32_t d = 0; d < t.ndim; d++) { t.extents.push_back(t.knots[d][t.order[d]]); t.extents.push_back(t.knots[d][t.knots[d].size() - t.order[d] - 1]); }
+			out = encode_fits(t);
+		}
 	} else if (kind == "short") {
 		std::string s = card_logical("SIMPLE", true) + card_int("BITPIX", -32);
 		out.assign(s.begin(), s.end());
